@@ -817,6 +817,21 @@ def pure_clauses(max_n=40, max_cols=8):
         if keys != wantk or vals != wantv or both != list(zip(wantk, wantv)):
             return cases, {"what": "combination", "shape": list(shape), "keys": keys[:20],
                            "values": vals[:20], "items": both[:20]}
+    # payloads that repeat or compare equal (0 / False, 1 / 1.0): positions, not values, make
+    # the index tuples
+    for items in ([["a", "b", "a"]], [[0.1, 0.2, 0.1], ["x", "y"]], [[0, False, 1, 1.0]],
+                  [["p", "p"], ["p", "p"]], [[None, None, 3]]):
+        cases += 1
+        dc = DataCombination(items)
+        shape = [len(x) for x in items]
+        wantk = list(itertools.product(*[range(m) for m in shape]))
+        wantv = [tuple(items[i][k[i]] for i in range(len(shape))) for k in wantk]
+        keys, vals, both = list(dc.keys()), list(dc.values()), list(dc.items())
+        if keys != wantk or [repr(v) for v in vals] != [repr(v) for v in wantv] or \
+                [k for k, _ in both] != wantk or \
+                [repr(v) for _, v in both] != [repr(v) for v in wantv]:
+            return cases, {"what": "combination with repeated payloads", "items": repr(items),
+                           "keys": keys[:20], "items_keys": [k for k, _ in both][:20]}
     # the caller keeps its lists and changes them after construction: whatever view the helper
     # takes (live or frozen), keys(), values() and items() must describe the same product
     for shape in [(2, 3), (1, 2, 2), (3,), (2, 2)]:
